@@ -392,7 +392,11 @@ func (w *World) cellsAddr(fr *frame, pos token.Pos, cells []value, idx value, T 
 		return &cells[0]
 	}
 	if len(cells) > symIndexMax {
-		return &cells[w.concretize(t, symIndexMax)]
+		if ub, ok := termUB(t, 0); ok && ub < symIndexMax {
+			cells = cells[:ub+1] // narrow index into a large table: only the reachable prefix is a candidate
+		} else {
+			return &cells[w.concretize(t, symIndexMax)]
+		}
 	}
 	// narrow candidates to a small index width when possible
 	ps := make([]*value, len(cells))
